@@ -33,6 +33,15 @@ def splitOn (sep : UInt8) : Bytes → List Bytes
 
 def str (s : String) : Bytes := s.toUTF8.toList
 
+/-- `b!"text"`: the UTF-8 bytes of a string literal as an explicit list literal, so that the
+    kernel can compute with it (`String` literals do not reduce in `decide`). -/
+syntax "b!" str : term
+macro_rules
+  | `(b! $s:str) => do
+    let bytes := s.getString.toUTF8.toList
+    let lits := bytes.toArray.map fun b => Lean.Syntax.mkNumLit (toString b.toNat)
+    `(([$lits,*] : List UInt8))
+
 /-- Decimal rendering of a natural number as ASCII bytes (Rust `Display` for unsigned ints). -/
 def natToDec (n : Nat) : Bytes := str (toString n)
 
